@@ -20,6 +20,7 @@ structure St where
   m : AM.Sem.St := { cap := 0 }
   gets : List Nat := []     -- blocked GETs (ordinals) the model admitted
   posts : List Nat := []
+  answered : List Nat := []   -- requests the API timeout has answered; their handlers still run and hold their slots
   implRunning : Nat := 0
   implRefused : Nat := 0
 
@@ -63,8 +64,17 @@ def step (σ : St) (op obs : List String) : St × List Msg :=
     let isGet := σ.gets.contains k
     let m' := if isGet then AM.Sem.step σ.m .getDone else AM.Sem.step σ.m .postDone
     let σ' := { σ with m := m', gets := σ.gets.erase k, posts := σ.posts.erase k }
-    ({ σ' with implRunning := toNat! running, implRefused := toNat! refused },
-      expectEq "release.res" "200" res ++ common σ' "release" running gauge refused ++ [.tag "release"])
+    ({ σ' with implRunning := toNat! running, implRefused := toNat! refused, answered := σ.answered.erase k },
+      expectEq "release.res" (if σ.answered.contains k then "503" else "200") res ++ common σ' "release" running gauge refused
+        ++ [.tag (if σ.answered.contains k then "release:after-timeout" else "release")])
+  | ["timeout"], [codes, running, gauge, refused] =>
+    -- the API timeout answers every request still inside its handler with 503; the slots stay taken
+    let pendingKs := (σ.gets ++ σ.posts).filter (fun k => !σ.answered.contains k)
+    let insNat (x : Nat) (l : List Nat) : List Nat := (l.filter (· < x)) ++ [x] ++ (l.filter (· ≥ x))
+    let sorted := pendingKs.foldl (fun acc x => insNat x acc) []
+    let want := joinList "," (sorted.map fun k => s!"{k}:503")
+    ({ σ with answered := σ.answered ++ pendingKs, implRunning := toNat! running, implRefused := toNat! refused },
+      expectEq "timeout.answered" want codes ++ common σ "timeout" running gauge refused ++ [.tag "timeout"])
   | _, _ => (σ, [.diff "parse" "?" (" ".intercalate op)])
 
 def engine : Engine St where
